@@ -327,7 +327,11 @@ func (sc *Scheduler) Signal(
 		defer func() {
 			done <- true
 		}()
-		for g.IsRunning() {
+		// Wait for the workers, not for the node states: the first signal
+		// flips a running node to "canceled" at once, but its process may
+		// still be alive (it can ignore the signal), and the caller escalates
+		// to SIGKILL only while this has not reported completion.
+		for g.hasActiveWorker() {
 			time.Sleep(sc.pause)
 		}
 	}
